@@ -13,7 +13,7 @@ class Check(EngineCheck):
                 E + "DSL.program_WF", E + "step_inv", E + "reach_inv", E + "C01_value_unique", E + "Clean_unique", E + "DSL.program_Det", E + "engine_fingerprint_matches_model",
                 E + "C01_value_gen", E + "C01_value_unique_gen", E + "C01_inputs_gen", E + "reachG_inv",
                 E + "NeedSelfStable.C01_value_gen_needs_SelfStable"]
-    mix = [(0.55, {}), (0.2, {"threads": True}), (0.25, {"cancel": True})]
+    mix = [(0.4, {}), (0.2, {"threads": True}), (0.2, {"cancel": True}), (0.2, {"reprogram": True})]
     budget = (300, 3000)
 
 
